@@ -283,6 +283,7 @@ type clientCfg struct {
 	bind   int    // 0 or a fixed port
 	bindIP string // "" = 127.0.0.1
 	debug  bool   // the client's debug flag (logging only: nothing observable may depend on it)
+	timeout time.Duration // the client's timeout (T everywhere but in the zero-timeout cases)
 }
 
 func newRealClient(cfg clientCfg, serial uint32, endpoint string) uhppote.IUHPPOTE {
@@ -303,10 +304,13 @@ func newRealClient(cfg clientCfg, serial uint32, endpoint string) uhppote.IUHPPO
 	default:
 		devices = append(devices, uhppote.Device{DeviceID: serial, Address: types.ControllerAddrFrom(ap.Addr(), ap.Port()), Protocol: cfg.path})
 	}
-	return uhppote.NewUHPPOTE(bind, broadcast, listen, T, devices, cfg.debug)
+	return uhppote.NewUHPPOTE(bind, broadcast, listen, cfg.timeout, devices, cfg.debug)
 }
 
-func timeClass(d time.Duration) string {
+func timeClass(d time.Duration) string { return timeClassOf(d, T) }
+
+// timeClassOf: the same against a timeout other than T
+func timeClassOf(d time.Duration, T time.Duration) string {
 	switch {
 	case d < T-slack/2:
 		return "<T"
